@@ -10,6 +10,10 @@ def selPoint (name : String) (s : SelectFact) : BlockPoint :=
          (if s.cases.contains "recv c.quit" then [Signal.queueQuit] else []) ++
          (if s.hasTimer then [Signal.timer] else [])⟩
 
+/-- a wait inside Close itself: ended by the context that carries the FIN timeout -/
+def closePoint (name : String) (s : SelectFact) : BlockPoint :=
+  ⟨name, if s.cases.contains "recv ctxc.Done()" then [Signal.timer] else []⟩
+
 def ctxPoint (name arg : String) : BlockPoint :=
   ⟨name, if arg = "g.ctx" then [Signal.ctxCancel] else []⟩
 
@@ -22,6 +26,7 @@ def facts : Facts :=
       (restingSelects sel_sendPacketsForever).map (selPoint "sendPacketsForever select") ++
       (restingSelects sel_receivePacketsForever).map (selPoint "receivePacketsForever select") ++
       sel_waitForSync.map (selPoint "waitForSync") ++
+      (restingSelects sel_Close).map (closePoint "Close: wait for the FIN attempt") ++
       ctxarg_recvFromStream.map (ctxPoint "recvFromStream") ++
       ctxarg_sendPacket_recvLoop.map (ctxPoint "sendPacket (receive loop)") ++
       ctxarg_sendPacket_sendLoop.map (ctxPoint "sendPacket (send loop)") }
